@@ -344,6 +344,9 @@ Definition get_message_code : list dstmt :=
 (* driver/netconf/rpc.go Driver.sendRPC (the polling goroutine as one effect) *)
 Definition send_rpc_code : list dstmt :=
   [DIf (DAtom "d.ForceSelfClosingTags") [] []; DCall "m.serialize(d.SelectedVersion, d.ForceSelfClosingTags, d.ExcludeHeader)"; DIf (DNot (DEq "err" "nil")) [DReturn "nil, err"] []; DAssign "r" "response.NewNetconfResponse( serialized.rawXML, serialized.framedXML, d.Transport.GetHost(), d.Transport.GetPort(), d.SelectedVersion, )"; DAssign "err" "d.Channel.WriteAndReturn(serialized.framedXML, false)"; DIf (DNot (DEq "err" "nil")) [DReturn "nil, err"] []; DIf (DEq "d.SelectedVersion" "V1Dot1") [DAssign "err" "d.Channel.WriteReturn()"; DIf (DNot (DEq "err" "nil")) [DReturn "nil, err"] []] []; DAssign "done" "make(chan []byte)"; DCall "context.WithCancel(context.Background()) -> ctx, cancel"; DCall "defer cancel()"; DCall "go func() { defer close(done) var data []byte for { if ctx.Err() != nil { return } data = d.getMessage(m.MessageID) if data != nil { break } time.Sleep(5 * time.Microsecond) } select { case done <- data: case <-ctx.Done(): } }()"; DAssign "timer" "time.NewTimer(d.Channel.GetTimeout(op.Timeout))"; DSwitch "select" [(["err = <-d.errs"], [DReturn "nil, err"]); (["<-timer.C"], [DReturn "nil, fmt.Errorf(""%w: channel timeout sending input to device"", util.ErrTimeoutError)"]); (["data := <-done"], [DCall "r.Record(data)"])]; DReturn "r, nil"].
+(* channel/channel.go Channel.processOut *)
+Definition process_out_code : list dstmt :=
+  [DAssign "lines" "bytes.Split(b, []byte(""\n""))"; DAssign "cleanLines" "make([][]byte, len(lines))"; DRange "l" "lines" [DAssign "i" "index of l"; DAssign "cleanLines[i]" "bytes.TrimRight(l, "" "")"]; DAssign "b" "bytes.Join(cleanLines, []byte(""\n""))"; DIf (DAtom "strip") [DAssign "b" "c.PromptPattern.ReplaceAll(b, nil)"] []; DAssign "b" "bytes.Trim(b, string(c.ReturnChar))"; DAssign "b" "bytes.Trim(b, ""\n"")"; DReturn "b"].
 (* driver/netconf: buildFilterElem, buildDefaultsElem, buildGetElem, buildGetConfigElem *)
 Definition nc_filter_elem_code : list dstmt :=
   [DIf (DOr (DEq "filter" """""") (DEq "filterType" """""")) [DReturn "nil, nil"] []; DSwitch "filterType" [(["FilterSubtree"], [DAssign "f" "&filterT{ XMLName: xml.Name{}, Type: filterType, Select: """", Payload: filter, }"]); (["FilterXpath"], [DAssign "f" "&filterT{ XMLName: xml.Name{}, Type: filterType, Select: filter, }"]); ([], [DAssign "err" "fmt.Errorf(""%w: unknown filter type '%s'"", util.ErrNetconfError, filterType)"])]; DReturn "f, err"].
